@@ -254,3 +254,83 @@ def k2_init_return(res, tier):
                          'the caller of the class receives an object without the fields the initialiser set', info, replay=F40_REPLAY)
                 r.checks.remove((lab, ok, info))
     _finish(res, e, results, 'C02.K2:initializer_returns_self:')
+
+
+# ---------------------------------------------------------------------------------------------- declared state == defined state
+def _binding_obligation(res, fname, ast_ty, extra_args=None):
+    """run one lowering function with declare_variable / define_variable summarised: every variable is defined with the state it was
+    declared with (a captured variable gets its FillBox, an uncaptured one does not)"""
+    from .compabs import emitted_names
+    P = get_program('vm')
+    e = Engine(P, loop_bound=6, timeout_s=180, max_depth=60)
+    CW = CompilerWorld(e, P)
+    sed = P.enum_def(STATE)
+    f = P.lookup('compiler::Compiler::' + fname)
+    e.allow_havoc(r'^(compiler::)?Compiler::(identifier_constant|make_constant|string_constant|variable_get|variable_set|error)$', r'^(laythe_core::)?(allocator::)?Allocator::manage_str$',
+                  r'^(compiler::ir::)?(token::)?Token::\w+$', r'^(compiler::ir::)?(ast::)?\w+::(start|end|span)$', r'^<.* as (compiler::ir::)?(ast::)?Spanned>::(start|end|span)$')
+
+    def name_of(e_, v):
+        while isinstance(v, Ref):
+            v = v.cell.get(e_)
+        return getattr(v, 's', None) if isinstance(v, StrV) else id(v)
+
+    def m_declare(e_, a, c):
+        k = len(e_.path_state.setdefault('declared', []))
+        stv = z3.BitVec(f'declared_state_{k}', 64)
+        e_.add_constraint(z3.ULT(stv, len(sed.variants)))
+        kk = e_.concretize(stv, list(range(len(sed.variants))))
+        e_.path_state['declared'].append((name_of(e_, a[1]), kk))
+        e_.path_state['emitted'].append(('chunk', 'declare', 0))
+        return Struct('()', {0: Cell(EnumV(STATE, kk, None, None, sed)), 1: Cell(z3.BitVec(f'declared_slot_{k}', 16))}, None)
+    e.model(r'^(compiler::)?Compiler::declare_variable$', m_declare)
+
+    def m_define(e_, a, c):
+        stt = a[2]
+        e_.path_state.setdefault('defined', []).append((name_of(e_, a[1]), stt.tag if isinstance(stt.tag, int) else None))
+        e_.path_state['emitted'].append(('chunk', 'define', 0))
+        return UNIT
+    e.model(r'^(compiler::)?Compiler::define_variable$', m_define)
+
+    def path(e):
+        c = CW.fresh_compiler(e)
+        at0 = CW.attrs(e, c)
+        e.assume(z3.And(z3.UGE(at0['depth'], 1), z3.ULT(at0['depth'], 1 << 16)))
+        e.assume(CW.locals_seq(e, c).len == 0)
+        e.assume(z3.ULT(CW.field(e, c, 'local_tables').len, 1 << 8))
+        node = e.fresh(ast_ty, 'node')
+        args = [Ref(Cell(c)), Ref(Cell(node))] + (extra_args(e) if extra_args else [])
+        e.call(f, args)
+        dec = e.path_state.get('declared', [])
+        dfn = e.path_state.get('defined', [])
+        for j, (nm, stt) in enumerate(dfn):
+            if isinstance(nm, str) and nm.startswith('$'):
+                continue          # hidden variables of the lowering ($iter) cannot be captured
+            # names are opaque token texts here: the j-th definition belongs to the j-th declaration (each lowering declares, evaluates
+            # the initialiser, defines)
+            same = [s_ for n_, s_ in dec if n_ == nm] if isinstance(nm, str) else ([dec[j][1]] if j < len(dec) else [])
+            e.check(bool(same) and stt is not None and same[-1] == stt, f'{fname}: a variable is defined with the state it was declared with (a captured one gets its box filled)',
+                    {'declared': [sed.variants[s_][0] for s_ in same], 'defined': sed.variants[stt][0] if stt is not None else None})
+        return {'fn': fname, 'declared': len(dec), 'defined': len(dfn)}
+    results = e.explore(path)
+    _finish(res, e, results, f'C02.K2:{fname}:')
+    return results
+
+
+@obligation('C02.K2.catch_binding', 'C02', programs=('vm',), also=('C04',))
+def k2_catch_binding(res, tier):
+    """Compiler::catch: the catch variable is defined with the state the resolver gave it, so a catch variable that a closure inside
+    the catch block captures lives in a box that is filled with the error"""
+    res.bounds = {'state of the catch variable': 'every SymbolState', 'catch block': 'opaque'}
+    lab = 'byte_code::Label'
+    rs = _binding_obligation(res, 'catch', 'compiler::ir::ast::Catch', extra_args=lambda e: [Struct(lab, {0: Cell(z3.BitVec('try_end', 32))}, None)])
+    if not any(isinstance(r.info, dict) and r.info.get('defined') for r in rs if r.kind == 'ok'):
+        res.inconclusive('vacuous: no path defines the catch variable')
+
+
+@obligation('C02.K2.let_binding', 'C02', programs=('vm',))
+def k2_let_binding(res, tier):
+    """Compiler::let_: the declared variable is defined with the state the resolver gave it"""
+    res.bounds = {'state of the variable': 'every SymbolState', 'initialiser': 'opaque'}
+    rs = _binding_obligation(res, 'let_', 'compiler::ir::ast::Let')
+    if not any(isinstance(r.info, dict) and r.info.get('defined') for r in rs if r.kind == 'ok'):
+        res.inconclusive('vacuous: no path defines the variable')
